@@ -290,6 +290,9 @@ func (r *c02Runner) lispFail(lt *c02LispText, entry, kind, aspect string, plan c
 	if entry == c02LReadEofp {
 		e, cutAt = entry, -1 // the listed cells: the kind of stream and the cut play no part
 	}
+	if entry == c02LLoad || entry == c02LLoadTrunc || entry == c02LRequire {
+		cutAt = -1 // the cuts are positions in the load text, not in the text
+	}
 	r.fail(c02Fail{entry: e, cell: lt.cs.T.Name, aspect: aspect, text: lt.cs.T.Text, cfg: lt.cs.Cfg, plan: plan, cutAt: cutAt,
 		observed: got.String(), expected: want, from: from, sweep: lt.cs.sweep, prefixLen: -1, stream: kind})
 }
